@@ -345,6 +345,8 @@ def _encode(it, a, k, n):
         if not it.branch(ENC_OK(s.z, codec_z), "encode-ok"):
             it.raise_(exc, node=n)
     r = ENC(s.z, z3.StringVal(cc + ":" + ce))
+    if cc == "idna":
+        it.ctx.assume(z3.InRe(r, z3.Star(_range("\x00", "\x7f"))), "idna-encode:ascii-output")
     if cc in ("utf-8", "utf8"):
         it.ctx.assume(z3.Length(r) >= z3.Length(s.z), "utf8-encode:len>=")
         it.ctx.assume((z3.Length(r) == 0) == (z3.Length(s.z) == 0), "utf8-encode:empty-iff-empty")
@@ -369,6 +371,11 @@ def _decode(it, a, k, n):
         except LookupError:
             pass
     if cc in ("latin1", "latin-1", "iso-8859-1"):
+        return VStr(s.z, "str")
+    if cc == "ascii" and ce == "strict":
+        ok = z3.InRe(s.z, z3.Star(_range("\x00", "\x7f")))
+        if not it.spec and not it.branch(ok, "decode-ascii"):
+            it.raise_("UnicodeDecodeError", node=n)
         return VStr(s.z, "str")
     if ce == "strict" and not it.spec:
         if not it.branch(DEC_OK(s.z, z3.StringVal(cc)), "decode-ok"):
